@@ -133,9 +133,17 @@ Definition obs_step1 (prop : Z) (c : cfg) (snaps : list (list ssnap)) (o : obs) 
           let inuse := fold_left Z.add (map snd us) 0 in
           set_bal o (if 0 <? idle - c_max c then 1 else 0, if c_tot c <=? idle + inuse then 0 else Z.max 0 (c_min c - idle), [])
       | None => o end
+  | 1 :: rid :: pod :: _ :: 1 :: _ =>
+      (* cancelled before it started *)
+      upd o (o_now o) (o_slot_eni o) (o_led o) (o_gone o) (o_unreq o) (o_rr o) (o_held o)
+          (mkRq rid pod (-1) false :: o_reqs o) (o_calls o) (o_fault o) (o_inh o)
   | 1 :: rid :: pod :: _ =>
       upd o (o_now o) (o_slot_eni o) (o_led o) (o_gone o) (o_unreq o) (o_rr o) (o_held o)
           (mkRq rid pod 0 false :: o_reqs o) (o_calls o) (o_fault o) (o_inh o)
+  | 2 :: rid :: _ =>
+      (* the caller gave up: the request no longer waits on any interface (slot -1), whenever its worker notices *)
+      upd o (o_now o) (o_slot_eni o) (o_led o) (o_gone o) (o_unreq o) (o_rr o) (o_held o)
+          (map (fun q => if q_rid q =? rid then mkRq rid (q_pod q) (-1) (q_done q) else q) (o_reqs o)) (o_calls o) (o_fault o) (o_inh o)
   | 7 :: i :: fam :: _ :: removed :: _ =>
       if removed =? 0 then o else
       let e := slot_eni o i in
@@ -160,7 +168,7 @@ Definition obs_step1 (prop : Z) (c : cfg) (snaps : list (list ssnap)) (o : obs) 
       let o := match o_bal o with (d, w, seen) => if (nc =? 1) && negb (memz rid seen) then set_bal o (d, w, rid :: seen) else o end in
       if acc =? 1 then
         let reqs := if existsb (fun q => q_rid q =? rid) (o_reqs o)
-                    then map (fun q => if q_rid q =? rid then mkRq rid (q_pod q) i (q_done q) else q) (o_reqs o)
+                    then map (fun q => if q_rid q =? rid then mkRq rid (q_pod q) (if q_slot q =? -1 then -1 else i) (q_done q) else q) (o_reqs o)
                     else mkRq rid pod i false :: o_reqs o in
         upd o (o_now o) (o_slot_eni o) (o_led o) (o_gone o) (o_unreq o) (o_rr o) (o_held o) reqs (o_calls o) (o_fault o) (o_inh o)
       else o
